@@ -39,24 +39,73 @@ type ioPlugin interface {
 }
 
 func SeparatePluginHandlers(handlers []PluginHandler) (invokeHandlers []PluginHandler, ioHandlers []PluginHandler) {
+	invokeHandlers, ioHandlers, _, _ = separatePluginHandlers(handlers)
+	return
+}
+
+// separatePluginHandlers also tells which plugin object a handler was taken from (nil for a
+// handler given as a function). The method values taken from plugin objects all share one
+// code address, that of the interface method: only the object tells them apart.
+func separatePluginHandlers(handlers []PluginHandler) (invokeHandlers, ioHandlers, invokeObjects, ioObjects []PluginHandler) {
 	for _, handler := range handlers {
 		switch handler := handler.(type) {
 		case InvokeHandler:
 			invokeHandlers = append(invokeHandlers, handler)
+			invokeObjects = append(invokeObjects, nil)
 		case IOHandler:
 			ioHandlers = append(ioHandlers, handler)
+			ioObjects = append(ioObjects, nil)
 		case plugin:
 			invokeHandlers = append(invokeHandlers, handler.InvokeHandler)
+			invokeObjects = append(invokeObjects, handler)
 			ioHandlers = append(ioHandlers, handler.IOHandler)
+			ioObjects = append(ioObjects, handler)
 		case invokePlugin:
 			invokeHandlers = append(invokeHandlers, handler.Handler)
+			invokeObjects = append(invokeObjects, handler)
 		case ioPlugin:
 			ioHandlers = append(ioHandlers, handler.Handler)
+			ioObjects = append(ioObjects, handler)
 		default:
 			panic("invalid plugin handler")
 		}
 	}
 	return
+}
+
+// usePluginHandlers installs handlers together with the plugin objects they were taken from.
+func usePluginHandlers(manager PluginManager, handlers []PluginHandler, objects []PluginHandler) {
+	if len(handlers) == 0 {
+		return
+	}
+	if pm, ok := manager.(*pluginManager); ok {
+		pm.use(handlers, objects)
+	} else {
+		manager.Use(handlers...)
+	}
+}
+
+// unusePluginHandlers removes handlers; those taken from plugin objects are found by their object.
+func unusePluginHandlers(manager PluginManager, handlers []PluginHandler, objects []PluginHandler) {
+	if len(handlers) == 0 {
+		return
+	}
+	if pm, ok := manager.(*pluginManager); ok {
+		pm.unuse(handlers, objects)
+	} else {
+		manager.Unuse(handlers...)
+	}
+}
+
+// samePluginObject reports whether two plugin objects are the same value (false for values
+// that can not be compared).
+func samePluginObject(a, b PluginHandler) (same bool) {
+	defer func() {
+		if recover() != nil {
+			same = false
+		}
+	}()
+	return a == b
 }
 
 // PluginManager for RPC.
@@ -69,6 +118,7 @@ type PluginManager interface {
 type pluginManager struct {
 	sync.RWMutex
 	handlers       []PluginHandler
+	objects        []PluginHandler // objects[i]: the plugin object handlers[i] was taken from, or nil
 	defaultHandler NextPluginHandler
 	handler        NextPluginHandler
 	getNextHandler func(handler PluginHandler, next NextPluginHandler) NextPluginHandler
@@ -98,20 +148,50 @@ func (pm *pluginManager) Handler() NextPluginHandler {
 }
 
 func (pm *pluginManager) Use(handler ...PluginHandler) {
+	pm.use(handler, nil)
+}
+
+func (pm *pluginManager) use(handler []PluginHandler, object []PluginHandler) {
 	pm.Lock()
 	defer pm.Unlock()
 	pm.handlers = append(pm.handlers, handler...)
+	for i := range handler {
+		if i < len(object) {
+			pm.objects = append(pm.objects, object[i])
+		} else {
+			pm.objects = append(pm.objects, nil)
+		}
+	}
 	pm.rebuildHandler()
 }
 
 func (pm *pluginManager) Unuse(handler ...PluginHandler) {
+	pm.unuse(handler, nil)
+}
+
+func (pm *pluginManager) unuse(handler []PluginHandler, object []PluginHandler) {
 	pm.Lock()
 	defer pm.Unlock()
 	rebuild := false
 	var handlers []PluginHandler
-	for _, h := range pm.handlers {
+	var objects []PluginHandler
+	for i, h := range pm.handlers {
 		hp := reflect.ValueOf(h).Pointer()
-		for _, h2 := range handler {
+		o := pm.objects[i]
+		for i2, h2 := range handler {
+			var o2 PluginHandler
+			if i2 < len(object) {
+				o2 = object[i2]
+			}
+			if o != nil || o2 != nil {
+				// taken from a plugin object: it is the object that is installed and removed
+				if o != nil && o2 != nil && samePluginObject(o, o2) {
+					h = nil
+					rebuild = true
+					break
+				}
+				continue
+			}
 			if hp == reflect.ValueOf(h2).Pointer() {
 				h = nil
 				rebuild = true
@@ -120,9 +200,11 @@ func (pm *pluginManager) Unuse(handler ...PluginHandler) {
 		}
 		if h != nil {
 			handlers = append(handlers, h)
+			objects = append(objects, o)
 		}
 	}
 	pm.handlers = handlers
+	pm.objects = objects
 	if rebuild {
 		pm.rebuildHandler()
 	}
